@@ -503,8 +503,16 @@ def _low_zero_bits(t):
     return 0
 
 
+RANGES = {}     # constant name -> (lo, hi) from the declared shape of an input
+
+
 def _bits_bound(t):
     """m such that syntactically 0 <= t < 2^m, else None"""
+    if z3.is_const(t) and t.decl().kind() == z3.Z3_OP_UNINTERPRETED:
+        r = RANGES.get(t.decl().name())
+        if r is not None and r[0] is not None and r[1] is not None and r[0] >= 0:
+            return int(r[1]).bit_length()
+        return None
     if z3.is_int_value(t):
         v = t.as_long()
         return v.bit_length() if v >= 0 else None
@@ -512,10 +520,12 @@ def _bits_bound(t):
         d = t.arg(1).as_long()
         if d > 0:
             return (d - 1).bit_length()
-    if z3.is_mul(t) and t.num_args() == 2 and z3.is_int_value(t.arg(0)) and t.arg(0).as_long() > 0:
-        inner = _bits_bound(t.arg(1))
+    if z3.is_mul(t) and t.num_args() == 2 and any(z3.is_int_value(t.arg(i)) and t.arg(i).as_long() > 0 for i in (0, 1)):
+        ci = 0 if z3.is_int_value(t.arg(0)) else 1
+        inner = _bits_bound(t.arg(1 - ci))
         if inner is not None:
-            return inner + (t.arg(0).as_long()).bit_length()
+            c = t.arg(ci).as_long()
+            return inner + (c.bit_length() - 1 if _pow2(c) else c.bit_length())
     if z3.is_add(t):
         bs = [_bits_bound(c) for c in t.children()]
         if all(b is not None for b in bs):
